@@ -24,6 +24,7 @@ from .core import ROOT, Streams, func_adl_src, mix
 
 ENGINE_VERSION = 1
 CHUNK = 2
+SLICE_MIN_RUNS = 40
 ISOLATE = False  # every node already is a fresh interpreter
 RULE = ("one case = one cluster run: 2-4 fresh interpreters (own PYTHONHASHSEED, clock epoch, import "
         "order, pre-history) + one rehash node; 6-14 base queries built 2-4 ways each plus their "
@@ -324,6 +325,8 @@ def generate(prop, seed, tier="quick", fault_free=False):
             # ones (sim/simid.py) - builds of one node follow each other in one process and
             # each query dies when the next one is built
             nd["simid"] = x.randrange(2 ** 31) if x.random() < 0.5 else None
+            # logging configured by the application of that node (root logger, formatting handler)
+            nd["log_level"] = x.choice([None, None, "WARNING", "INFO", "DEBUG", "DEBUG"])
         for op in ops:
             if op.get("variant") not in ("long_chain",) and not op.get("pad_to") and x.random() < 0.1:
                 # crash point: the first hash of this query is hit by an asynchronous exception
@@ -341,8 +344,10 @@ def run_node(node, builds):
     env["PYTHONHASHSEED"] = str(node["hashseed"])
     env.pop("VERIF_HASHSEED", None)
     job = {"src": func_adl_src(), "epoch": node["epoch"], "prehistory": node["prehistory"],
-           "import_order": node["import_order"], "builds": builds, "simid": node.get("simid")}
-    p = subprocess.run([sys.executable, NODE_SCRIPT], input=json.dumps(job), env=env,
+           "import_order": node["import_order"], "builds": builds, "simid": node.get("simid"),
+           "log_level": node.get("log_level")}
+    flags = ["-O"] if sys.flags.optimize == 1 else []  # nodes run under this process's options
+    p = subprocess.run([sys.executable] + flags + [NODE_SCRIPT], input=json.dumps(job), env=env,
                        capture_output=True, text=True, timeout=120)
     if p.returncode != 0:
         raise RuntimeError(f"hash node failed: {p.stderr[-800:]}")
